@@ -80,6 +80,7 @@ type Conn struct {
 	written       int64
 	cut           bool  // a short write / write error was injected
 	stallOver     bool  // the scripted write stall has ended (its deadline passed once)
+	readCount     int64 // bytes read by this end (atomic)
 	CutOffset     int64 // stream offset at which the cut happened
 	BytesAfterCut int64 // bytes the conn accepted after it had returned a short write
 	WritesAfterCut int
@@ -126,6 +127,7 @@ func (c *Conn) Read(p []byte) (int, error) {
 				n = c.faults.ReadChunk
 			}
 			n = copy(p[:n], q.buf)
+			atomic.AddInt64(&c.readCount, int64(n))
 			q.buf = q.buf[n:]
 			if len(q.buf) == 0 {
 				q.buf = nil
@@ -326,6 +328,9 @@ func (c *Conn) Snapshot() (written []byte, cut bool, cutOff int64, bytesAfter in
 	defer c.mu.Unlock()
 	return append([]byte{}, c.Written...), c.cut, c.CutOffset, c.BytesAfterCut
 }
+
+// ReadCount is the number of bytes this end has read so far.
+func (c *Conn) ReadCount() int64 { return atomic.LoadInt64(&c.readCount) }
 
 // Pending reports whether bytes are queued towards this end's reader.
 func (c *Conn) Pending() int {
